@@ -291,10 +291,13 @@ func runCheck(repo, root, prop, tier string, seed int) *CheckResult {
 			}
 			r := runSMT(work, o.Name, o.Query, timeout, seed, o.solverPref())
 			if r.Status != "unsat" && r.Status != "sat" && r.Status != "error" {
-				// retry once, longer, other seed
-				r2 := runSMT(work, o.Name+".retry", o.Query, timeout*2, seed+17, o.solverPref())
-				if r2.Status == "unsat" || r2.Status == "sat" {
-					r = r2
+				// undecided: if the quantifier-free relaxation has a model the obligation is most likely
+				// falsifiable (the replay decides); otherwise retry once, longer, with another seed
+				if m, _ := cexModel(o, work, seed); m == nil {
+					r2 := runSMT(work, o.Name+".retry", o.Query, timeout*3, seed+17, o.solverPref())
+					if r2.Status == "unsat" || r2.Status == "sat" {
+						r = r2
+					}
 				}
 			}
 			o.Result = &r
